@@ -105,6 +105,12 @@ func getMessageBuffer(c io.Closer) ([]byte, error) {
 		}
 	}
 
+	// The remaining length has at most 4 bytes; a fifth one would announce up
+	// to 32 GiB, which must not be allocated on behalf of a peer.
+	if l > 5 {
+		return nil, fmt.Errorf("connect/getMessage: 4th byte of remaining length has continuation bit set")
+	}
+
 	// Get the remaining length of the message
 	remlen, _ := binary.Uvarint(buf[1:])
 	buf = append(buf, make([]byte, remlen)...)
